@@ -19,7 +19,7 @@ use std::thread;
 use std::time::Duration;
 
 use data_encoding::{Encoding, HEXLOWER_PERMISSIVE};
-use yaml_rust::YamlLoader;
+use yaml_rust::{Yaml, YamlLoader};
 
 use crate::config::ServerConfig;
 use crate::config::{DEFAULT_BATCH_SIZE, DEFAULT_STATUS_INTERVAL};
@@ -52,6 +52,15 @@ pub struct FileConfig {
     fault_percentage: u8,
     num_workers: usize,
     persist_dir: Option<PathBuf>,
+}
+
+/// Integer value of `key`, which must fit the setting's type. Out-of-range values are an
+/// error rather than being silently wrapped into range (same as `EnvironmentConfig`).
+fn int_value<T: TryFrom<i64>>(key: &str, value: &Yaml) -> T {
+    value
+        .as_i64()
+        .and_then(|v| T::try_from(v).ok())
+        .unwrap_or_else(|| panic!("invalid {}: {:?}", key, value))
 }
 
 impl FileConfig {
@@ -90,9 +99,9 @@ impl FileConfig {
 
         for (key, value) in cfg[0].as_hash().unwrap() {
             match key.as_str().unwrap() {
-                "port" => config.port = value.as_i64().unwrap() as u16,
+                "port" => config.port = int_value("port", value),
                 "interface" => config.interface = value.as_str().unwrap().to_string(),
-                "batch_size" => config.batch_size = value.as_i64().unwrap() as u8,
+                "batch_size" => config.batch_size = int_value("batch_size", value),
                 "seed" => {
                     let val = value.as_str().unwrap().to_string();
                     config.seed = HEX
@@ -100,8 +109,8 @@ impl FileConfig {
                         .expect("seed value invalid; 'seed' must be a valid hex value");
                 }
                 "status_interval" => {
-                    let val = value.as_i64().expect("status_interval value invalid");
-                    config.status_interval = Duration::from_secs(val as u64)
+                    let val: u16 = int_value("status_interval", value);
+                    config.status_interval = Duration::from_secs(u64::from(val))
                 }
                 "kms_protection" => {
                     let val =
@@ -111,7 +120,7 @@ impl FileConfig {
                     config.kms_protection = val
                 }
                 "health_check_port" => {
-                    let val = value.as_i64().unwrap() as u16;
+                    let val = int_value("health_check_port", value);
                     config.health_check_port = Some(val);
                 }
                 "client_stats" => {
@@ -123,11 +132,11 @@ impl FileConfig {
                     config.persist_dir = val;
                 }
                 "fault_percentage" => {
-                    let val = value.as_i64().unwrap() as u8;
+                    let val = int_value("fault_percentage", value);
                     config.fault_percentage = val;
                 }
                 "num_workers" => {
-                    let val = value.as_i64().unwrap() as usize;
+                    let val = int_value("num_workers", value);
                     config.num_workers = val;
                 }
                 unknown => {
